@@ -82,7 +82,12 @@ def run_ensemble(rng, obs):
         obs.desc['nested_instance_reused'] = True; obs.event('nested_instance_reused')
     else:
         s.SetNestedSolver(ncls)
-    s.SetStrictRanges(list(box['lo']), list(box['hi']))
+    rmode = rng.choice([(None, None), (None, None), (True, None), (True, True), (None, True)])       # how the ensemble's ranges are to be imposed: tight / clip
+    rkw = {}
+    if rmode[0] is not None: rkw['tight'] = rmode[0]
+    if rmode[1] is not None: rkw['clip'] = rmode[1]
+    s.SetStrictRanges(list(box['lo']), list(box['hi']), **rkw)
+    obs.desc['ranges_mode'] = list(rmode)
     s.SetEvaluationLimits(maxiter, maxfun)
     chosen = []
     if which == 'buckshot':
@@ -158,6 +163,14 @@ def run_ensemble(rng, obs):
     if evm is not None:
         # the user's evaluation monitor stays a well-formed record: one cost per parameter vector, the entries it came with still in front
         ck(len(evm._x) == len(evm._y), 'the evaluation monitor holds one cost per recorded parameter vector', x_records=len(evm._x), y_records=len(evm._y), legacy=legacy)
+    # each member is subject to the ensemble's bounds - the same box, imposed the same way (tight / clip)
+    if not reused:
+        odd = []
+        for k_, m_ in enumerate(s._allSolvers):
+            same_box = [float(v) for v in m_._strictMin] == [float(v) for v in box['lo']] and [float(v) for v in m_._strictMax] == [float(v) for v in box['hi']]
+            same_mode = (m_._useTightRange, m_._useClipRange) == (s._useTightRange, s._useClipRange)
+            if not (same_box and same_mode and m_._useStrictRange): odd.append({'member': k_, 'tight': m_._useTightRange, 'clip': m_._useClipRange, 'strict': bool(m_._useStrictRange)})
+        ck(not odd, 'every member is subject to the ensemble\'s ranges, imposed the way the ensemble was told (tight / clip)', members=odd[:3], ensemble_mode=[s._useTightRange, s._useClipRange], step=step)
     msgs = s.Terminated(all=True, info=True)
     ck(all(bool(m) for m in msgs), 'every member stopped with a stop message', messages=[str(m)[:60] for m in msgs])
     # first evaluated point of each member (serial map, run-to-completion: members run one after another)
